@@ -1,5 +1,6 @@
 //! Correspondence harness: runs the real crate (built from /repo's working tree) on generated
 //! inputs and dumps what it observed as JSON lines. It judges nothing.
+mod comp;
 mod peak;
 mod poisson;
 mod table;
@@ -14,6 +15,7 @@ fn main() {
     match cmd {
         "table" => table::run(),
         "peak" => peak::run(&rest),
+        "comp" => comp::run(&rest),
         "poisson" => poisson::run(&rest),
         _ => {
             eprintln!("usage: ce_harness <table|...> [args]");
